@@ -86,6 +86,15 @@ def generate(problems):
     if merge_call is None or given_first is None:
         problems.append("subcmd_shape: merge_config call not found in handle_subcommands")
 
+    # ------------------------------------------------------------------ the settings check (fix adfb1a7)
+    settings_check = []
+    try:
+        csf = _find(ta, ast.FunctionDef, "_check_subcommand_settings")
+        settings_check = [_u(x) for x in csf.body]
+    except LookupError:
+        problems.append("subcmd_shape: _check_subcommand_settings not found")
+    settings_check += [_u(x) for x in ast.walk(hs) if isinstance(x, ast.If) and "_check_subcommand_settings" in _u(x)]
+
     # ------------------------------------------------------------------ the argv action
     call = _find(cls, ast.FunctionDef, "__call__")
     call_body = [_u(s) for s in call.body if not (isinstance(s, ast.Expr) and isinstance(s.value, ast.Constant))]
@@ -198,6 +207,7 @@ def generate(problems):
     body += "def returns : List String := %s\n" % lean_str_list(ret)
     body += "def layerCalls : List String := %s\n" % lean_str_list(layer)
     body += "def mergeCall : String := %s\n" % lean_str(merge_call or "")
+    body += "def settingsCheck : List String := %s\n" % lean_str_list(settings_check)
     body += "def givenFirst : Bool := %s\n" % _bool(bool(given_first))
     body += "def recurseCall : String := %s\n" % lean_str(recurse or "")
     body += "def argvAction : List String := %s\n" % lean_str_list(call_body)
